@@ -900,6 +900,17 @@ def partition_findings(case, n, parts, clears, max_findings=3):
             B.clear()
             if it % s != 0 and len(case.betas) > 1:
                 offmult = True
+            # right after a clear the histories are empty but READABLE through every path
+            try:
+                names = ['positions', 'stats', 'acceptance'] + (['temperature_swaps', 'temperature_acceptance']
+                                                                 if case.kind == 'pt' and len(case.betas) > 1 else [])
+                for obj in [B] + list(B.chains):
+                    for nm in names:
+                        a = getattr(obj, nm)
+                        if a.shape[-1] != 0:
+                            bad('history-after-clear', '%s.%s has %d entries right after a clear()' % (type(obj).__name__, nm, a.shape[-1]))
+            except Exception as e:      # noqa: BLE001
+                bad('history-after-clear-raises', 'reading the (empty) history right after a clear() at iteration %d raised %r' % (it, e))
             # "the retained history starts at the clear": what the chain and the sampler call the start
             # position is now the point the chain stands on (every level, through every path)
             if it > 0:
@@ -946,6 +957,45 @@ def partition_findings(case, n, parts, clears, max_findings=3):
                     and _eq(la.current_stats['logl'], lb.current_stats['logl'])):
                 bad('current', 'current position/stats differ after the partitioned run')
     return out
+
+
+def dtype_findings(seed, n=4):
+    """A clear() changes nothing but the retained history: in particular not the number TYPE in which
+    positions are kept (start arrays given in single precision stay single precision)."""
+    from epsie.samplers import MetropolisHastingsSampler, ParallelTemperedSampler
+    from epsie.proposals import Normal, BoundedNormal
+    rng = random.Random(seed * 13 + 5)
+    out, nchecks = [], 0
+
+    def model(x, y):
+        return -0.5 * (x * x + y * y), 0.0
+    for k in range(n):
+        dt = [numpy.float32, numpy.float16, numpy.float32, numpy.float64][k % 4]
+        pt = k % 2 == 1
+        props = [Normal(['x'], cov=[0.3]), BoundedNormal(['y'], {'y': (-3., 3.)}, cov=[0.5])]
+        if pt:
+            smp = ParallelTemperedSampler(['x', 'y'], model, 2, numpy.array([1., .5, .25]), swap_interval=2, proposals=props,
+                                          seed=rng.randrange(1 << 20))
+            shape = (3, 2)
+        else:
+            smp = MetropolisHastingsSampler(['x', 'y'], model, 2, proposals=props, seed=rng.randrange(1 << 20))
+            shape = (2,)
+        smp.start_position = {p: numpy.array(numpy.round(numpy.random.RandomState(rng.randrange(1 << 20)).uniform(-1, 1, shape), 2),
+                                             dtype=dt) for p in ('x', 'y')}
+        smp.run(rng.randint(1, 4))
+        before = {f: smp.positions.dtype[f] for f in smp.positions.dtype.names}
+        lv_before = [dict(l._positions.dtypes) for ch in smp.chains for l in I.levels_of(ch)]
+        for step in range(2):
+            smp.clear()
+            smp.run(rng.randint(1, 3))
+            nchecks += 1
+            after = {f: smp.positions.dtype[f] for f in smp.positions.dtype.names}
+            lv_after = [dict(l._positions.dtypes) for ch in smp.chains for l in I.levels_of(ch)]
+            if after != before or lv_after != lv_before:
+                out.append(('clear-changes-dtype', 'positions were kept as %s before a clear() and as %s after it (start arrays '
+                            'given as %s)' % (before, after, numpy.dtype(dt).name), {'detail': {'dtype': numpy.dtype(dt).name, 'pt': pt}}))
+                break
+    return out[:2], {'dtype_checks': nchecks}
 
 
 def compositions(n):
